@@ -537,6 +537,16 @@ impl Context {
             let stream = self.cur_related_item_path(did);
             return (stream, true);
         }
+        // a constant used where a typedef of its type is expected
+        if let CodegenTy::Adt(AdtDef {
+            kind: AdtKind::NewType(inner_ty),
+            did: newtype_did,
+        }) = target
+        {
+            let (stream, is_const) = self.ident_into_ty(did, ident_ty, inner_ty);
+            let ident = self.cur_related_item_path(*newtype_did);
+            return (format!("{ident}({stream})").into(), is_const);
+        }
         match (ident_ty, target) {
             (CodegenTy::Str, CodegenTy::FastStr) => {
                 let stream = self.cur_related_item_path(did);
